@@ -74,6 +74,15 @@ def regen():
         sk = json.load(open(st3))
         rg['skeleton'] = rg.get('skeleton', []) + sk['functions']
         rg['untied'] = rg.get('untied', []) + sk['untied']
+    # ... and of the command loop of the store task (tools/skelstore.py -> coq/GenStore.v; refinement proved in coq/Tie_store_step.v)
+    st4 = os.path.join(BUILD, 'skelstore.json')
+    rc, out, _ = sh([sys.executable, os.path.join(VERIF, 'tools', 'skelstore.py'), REPO, os.path.join(COQ, 'GenStore.v'), st4], 60)
+    if rc != 0:
+        rg['untied'] = rg.get('untied', []) + [['skelstore.py', out[-400:]]]
+    else:
+        sk = json.load(open(st4))
+        rg['skeleton'] = rg.get('skeleton', []) + sk['functions']
+        rg['untied'] = rg.get('untied', []) + sk['untied']
     return rg
 
 
@@ -542,7 +551,7 @@ def run_check(pid, P, tier, seed, replay, t0):
                 continue
             violations.append(('correspondence', 'model and implementation disagree on %s case %s' % (c['name'], case.get('case')), {'run': c['name'], 'case': strip(case)}, False))
     # an untied site (the translator no longer recognises the expression): the theorems are about a stale definition
-    rel_untied = [u for u in untied if u[0] in P.get('sites', []) or u[0] in ['gen_' + f for f in P.get('tie', [])] or (not P.get('sites') and not u[0].startswith('gen_')) or u[0] in ('regen.py', 'skel.py', 'skelagg.py')]
+    rel_untied = [u for u in untied if u[0] in P.get('sites', []) or u[0] in ['gen_' + f for f in P.get('tie', [])] or (not P.get('sites') and not u[0].startswith('gen_')) or u[0] in ('regen.py', 'skel.py', 'skelagg.py', 'skelstore.py')]
     if rel_untied and not violations:
         violations.append(('tie', 'regenerated definitions no longer tied to the source (site not recognised by tools/regen.py; the correspondence search found no difference): %s' % rel_untied, {'untied': rel_untied}, False))
     # 5. decide
